@@ -635,7 +635,7 @@ func c12Bind(c *cx) {
 				src = f.Norm(d.RHS, &d.At)
 			}
 			switch {
-			case eng.Glob("local:server(xmpp.Session.RemoteAddr[p1](),*.Bind.Resource)", src):
+			case eng.Glob("outer.p0(xmpp.Session.RemoteAddr[p1](),*.Bind.Resource)", src) || eng.Glob("local:*(xmpp.Session.RemoteAddr[p1](),*.Bind.Resource)", src):
 				if ok, _ := g.Dominated(d.At, "!eq(outer.p0,nil)"); !ok {
 					okj, why = false, "callback used without a nil test"
 				}
